@@ -20,7 +20,7 @@ Variable vcl : Z -> Z.
 Definition law (o : xop) (ret : bool) (pre post : gridT) : bool :=
   match o with
   | XTranspose => transpose_law pre post
-  | XTransposeArea _ _ _ _ => true
+  | XTransposeArea x y z t => transpose_area_law x y z t pre post
   | XRstrip aggr => strip_law a aggr aggr pre post && rstrip_maximal a aggr post && nonempty_kept a aggr pre post
   | XOptimize => strip_law a false true pre post && optimize_rows_ok a pre post && nonempty_kept a true pre post
   | XSetSpan x y z t m _ => if m then set_span_merge_law a x y z t ret pre post else set_span_law a x y z t ret pre post
@@ -37,8 +37,14 @@ Definition rowstyles_ok (o : xop) (pre post : tstate) : bool :=
 (* the algebra tables of the harness are consistent on the cells the call touches *)
 Definition alg_ok_for (o : xop) (g : gridT) : bool :=
   match o with
-  | XSetSpan x y z t _ _ =>
-      forallb (forallb (fun c : cell => alg_cell_ok a (z - x + 1) (t - y + 1) (fst c))) (g_area_cells x y z t g)
+  | XSetSpan x y z t m _ =>
+      forallb (forallb (fun c : cell => alg_cell_ok a (z - x + 1) (t - y + 1) (fst c))) (g_area_cells x y z t g) &&
+      (if m then
+         let mid := merge_mid a (g_area_cells x y z t g) in
+         alg_cell_ok a (z - x + 1) (t - y + 1) 0 && negb (ca_cov a 0) &&
+         (if existsb (existsb (contributes a)) (g_area_cells x y z t g)
+          then alg_cell_ok a (z - x + 1) (t - y + 1) mid && negb (ca_cov a mid) else true)
+       else true)
   | XDelSpan x y =>
       match ca_cs a (fst (gcell x y g)), ca_rs a (fst (gcell x y g)) with
       | Some nc, Some nr => forallb (forallb (fun c : cell => alg_tag_ok a (fst c))) (g_area_read x y (x + nc - 1) (y + nr - 1) g)
@@ -121,10 +127,10 @@ Fixpoint chk_xhist (pre : xtable) (prev : option (xop * bool * xtable)) (i weak 
   end.
 End Chk.
 
-Definition xcase := (list (Z * cinfo) * list (Z * Z * Z * Z) * list (Z * Z) * xtable * list xobs)%type.
+Definition xcase := (list (Z * cinfo) * list (Z * Z * Z * Z) * list (list Z * Z) * list (Z * Z) * xtable * list xobs)%type.
 Definition chk17 (c : xcase) : nat :=
-  let '(ctab, stab, vtab, init, l) := c in
-  chk_xhist (alg_of ctab stab) (vcl_of vtab) init None 0 0 l.
+  let '(ctab, stab, jtab, vtab, init, l) := c in
+  chk_xhist (alg_of ctab stab jtab) (vcl_of vtab) init None 0 0 l.
 
 (* CSV round trip, at value level: the matrix get_values() would answer (value classes of the abstracted XML, rows
    completed to the declared width) before to_csv and after import_from_csv.  CSV has no null: an empty cell inside a
